@@ -3,7 +3,7 @@
 P=$1; K=$2; shift 2
 WT=/tmp/mut/$P; OUT=$WT/out
 CHECKS=${@:-$P}
-git -C $WT checkout -q -- . ; git -C $WT status --short | grep -v '^?? out' 
+git -C $WT checkout -q -- . ; git -C $WT checkout -q --detach $(git -C /repo rev-parse HEAD); git -C $WT status --short | grep -v "^?? out"
 echo "== demo without change"; ( cd $OUT && timeout 300 /venv/bin/python demo$K.py $WT >/tmp/mut/$P.demo$K.clean.log 2>&1; echo "exit $?" )
 git -C $WT apply $OUT/change$K.diff || { echo "patch does not apply"; exit 1; }
 echo "== demo with change"; ( cd $OUT && timeout 300 /venv/bin/python demo$K.py $WT >/tmp/mut/$P.demo$K.mut.log 2>&1; echo "exit $?" )
